@@ -3,6 +3,7 @@ package sim
 // Oracle vocabulary (DESIGN §4). Nothing here calls the repository's decision functions.
 
 import (
+	"k8s.io/apimachinery/pkg/api/resource"
 	"sort"
 	"strings"
 	"time"
@@ -29,14 +30,24 @@ func letterOfPod(p *corev1.Pod) string {
 	if len(p.Spec.Containers) == 0 {
 		return "?"
 	}
-	return letterOfImage(p.Spec.Containers[0].Image)
+	return letterOfImage(p.Spec.Containers[0].Image) + spellingOf(&p.Spec.Containers[0])
+}
+
+// spellingOf: templates that differ only in how a quantity is written ("128Mi" / "134217728") are
+// different templates for the controller (the hash is taken over the serialised form); the variant
+// written in plain decimal is template X~.
+func spellingOf(c *corev1.Container) string {
+	if q, ok := c.Resources.Requests[corev1.ResourceMemory]; ok && q.Format == resource.DecimalSI {
+		return "~"
+	}
+	return ""
 }
 
 func letterOfTpl(t *corev1.PodTemplateSpec) string {
 	if len(t.Spec.Containers) == 0 {
 		return "?"
 	}
-	return letterOfImage(t.Spec.Containers[0].Image)
+	return letterOfImage(t.Spec.Containers[0].Image) + spellingOf(&t.Spec.Containers[0])
 }
 
 // podNode is the node a pod is bound or pinned to.
